@@ -116,6 +116,9 @@ class MessageSerializer(object):
     if result_spec:
       exceptions = result_spec[1:]
       for e in exceptions:
+        if e is None:
+          # thrift_spec is padded with None for unused field ids.
+          continue
         attr_val = getattr(result, e[2], None)
         if attr_val is not None:
           return MethodReturnMessage(error=attr_val)
